@@ -50,6 +50,15 @@ M = [
      "        for c in f.constraint_dynamic_model_l:\n            c.accept(self)", "        pass", ["C04"]),
     ("objlist_clear_keeps_objects", "src/vsc/types.py",
      "        self.get_model().clear()\n        self.backing_arr.clear()", "        self.get_model().clear()", ["C04"]),
+    ("nested_call_resets_in_use", "src/vsc/model/randomizer.py",
+     "            for f,used in used_rand_l:\n                f.is_used_rand = used", "            pass", ["C17"]),
+    ("subscript_merge_pops_index", "src/vsc/model/rand_info_builder.py",
+     "                    idx = self._randset_m[self._active_randset]\n                    self._randset_m.pop(self._active_randset)\n                    self._randset_l[idx] = None\n                    self._active_randset = ex_randset\n            else:",
+     "                    idx = self._randset_m[self._active_randset]\n                    self._randset_m.pop(idx)\n                    self._randset_l[idx] = None\n                    self._active_randset = ex_randset\n            else:", ["C04"]),
+    ("objlist_setitem_user_side_only", "src/vsc/types.py",
+     "            model.field_l[k] = fm\n            model.name_elems()", "            pass", ["C04"]),
+    ("bounds_use_blocks_of_nonrandom_objects", "src/vsc/visitors/variable_bound_visitor.py",
+     "            self._in_use = in_use and f.is_declared_rand and f.rand_mode", "            self._in_use = in_use", ["C17"]),
     ("ult_to_slt", "src/vsc/model/expr_bin_model.py",
      "ret = btor.Ult(lhs_n, rhs_n)", "ret = btor.Slt(lhs_n, rhs_n)", ["C01"]),
     ("uext_to_sext", "src/vsc/model/expr_bin_model.py",
